@@ -1,10 +1,12 @@
 (* Check/Ratchet.v -- check_baseline_ratchet, tighten_baseline, handle_baseline_ratchet of
    src/commands/check/check_baseline_ops.rs (definitions only).
 
-   The evaluated set is explicit: [evaluated] is the list of keys the run looked at (the paths of
+   The evaluated set is explicit: [evaluated] is the list of keys the run looked at: the paths of
    all results of the run, whatever their status, plus the directories of dir_stats when the
-   structure block of runner.rs ran). The code as it stands never consults it (that is D11); the
-   specification in Properties_C10.v does. *)
+   structure block of runner.rs ran, plus - for a run that scanned directories - the baseline
+   keys whose path no longer exists (EvaluatedPaths::covers; the existence test is an oracle
+   column supplied with the directories). handle_baseline_ratchet keeps only the stale paths
+   the evaluated set covers (repair of D11, fixes/D11-ratchet-evaluated-set.patch). *)
 From Coq Require Import NArith List Bool.
 From SG Require Import Check.Results Check.BMap.
 Import ListNotations.
@@ -16,10 +18,14 @@ Inductive rmode := RWarn | RAuto | RStrict.
 Definition current_failures (results : list result) : list key :=
   map key_of (filter (fun r => is_failed r || is_grandfathered r) results).
 
-(* stale_paths (before sorting; order is irrelevant to every caller but the message) *)
-Definition check_baseline_ratchet (results : list result) (evaluated : list key) (b : baseline)
-  : list key :=
+(* stale_paths (before sorting; order is irrelevant to every caller but the message):
+   the re-exported function, which knows nothing about the evaluated set *)
+Definition check_baseline_ratchet (results : list result) (b : baseline) : list key :=
   filter (fun k => negb (mem_key k (current_failures results))) (keys b).
+
+(* RatchetResult::retain(|p| evaluated.covers(p)) *)
+Definition retain_evaluated (evaluated : list key) (stale : list key) : list key :=
+  filter (fun k => mem_key k evaluated) stale.
 
 Definition tighten_baseline (b : baseline) (stale : list key) : baseline :=
   fold_left (fun acc k => remove k acc) stale b.
@@ -43,7 +49,7 @@ Definition handle_baseline_ratchet (cli cfg : option rmode) (results : list resu
     match ob with
     | None => mkRO false None false []           (* warning only: no baseline found *)
     | Some b =>
-      let stale := check_baseline_ratchet results evaluated b in
+      let stale := retain_evaluated evaluated (check_baseline_ratchet results b) in
       match stale with
       | [] => mkRO false ob false []
       | _ =>
@@ -56,6 +62,7 @@ Definition handle_baseline_ratchet (cli cfg : option rmode) (results : list resu
     end
   end.
 
-(* the evaluated set of a run, as the repaired code computes it / as the specification uses it *)
+(* the evaluated set of a run: result paths, then [dirs] = the directories the structure block
+   counted plus (directory-scan runs) the baseline keys whose path no longer exists *)
 Definition evaluated_of (results : list result) (dirs : list key) : list key :=
   map key_of results ++ dirs.
